@@ -554,6 +554,18 @@ impl TemplatedFileInner {
     }
 }
 
+#[cfg(sqruff_verif)]
+impl TemplatedFileInner {
+    /// Verification hook: the result of the crate-private `raw_slices_spanning_source_slice` as
+    /// (source_idx, byte length of the raw text, slice_type).
+    pub fn verif_raw_slices_spanning(&self, source_slice: &Range<usize>) -> Vec<(usize, usize, String)> {
+        self.raw_slices_spanning_source_slice(source_slice)
+            .into_iter()
+            .map(|r| (r.source_idx, r.raw.len(), r.slice_type))
+            .collect()
+    }
+}
+
 /// Find the indices of all newlines in a string.
 pub fn iter_indices_of_newlines(raw_str: &str) -> impl Iterator<Item = usize> + '_ {
     // TODO: This may be optimize-able by not doing it all up front.
